@@ -18,11 +18,11 @@ RADII = {"SE2": (0.3, 0.2, 0.03), "SE3": (0.1, 0.05, 0.02)}
 META = {
     "rule": "every combination of: family {ring, eight, grid | ring, helix} x size n in {3,6,12} (thorough +24,40) x initial-guess perturbation pattern {plus, minus, alt, sin, cos} x "
     "measurement-noise pattern {zero, alt, sin} x radius {full, half} of the calibrated neighbourhood (SE2: dt .3, dtheta .2, noise .03; SE3: dt .1, dq .05, noise .02) x tol in "
-    "{1e-10,1e-6,1e-3} x information scale {1, 1e-6 (pattern alt only)}, max_iter 50. Oracles: final_chi2 <= initial_chi2; Newton decrement b^T H^-1 b of the returned state, from the "
+    "{1e-10,1e-6,1e-3} x information scale {1, 1e-6 (pattern alt only)}, max_iter 50; for pattern alt also three histories: an earlier coarser run (tol 1e-3) on the same Graph object, an earlier iteration with the anchor at another vertex, a landmark entered twice with both vertices seeded from ONE shared pose object. Oracles: final_chi2 <= initial_chi2; Newton decrement b^T H^-1 b of the returned state, from the "
     "REFERENCE error model with 5-point Jacobians, <= 10 tol chi2_final + floor; noise-free: every optimised pose (relative to the fixed first pose) equals ground truth within 1e-7. "
     "non-trivial = initial chi2 > 1e-6 (the run has to move)",
     "assumptions": ["claim limited to the calibrated neighbourhood and the listed families (undamped Gauss-Newton may legitimately diverge outside)", "reference error model + 5-point Jacobians + numpy solve trusted; the converged flag is C12's business"],
-    "required_classes": ["kind:SE2", "kind:SE3", "noise_free", "noisy", "landmarks_with_offset", "loop_closure", "tol:1e-10", "tol:0.001", "weak_information"],
+    "required_classes": ["kind:SE2", "kind:SE3", "noise_free", "noisy", "landmarks_with_offset", "loop_closure", "tol:1e-10", "tol:0.001", "weak_information", "hist:two_stage", "hist:reanchor", "hist:shared_landmark_seed"],
     "bounds": {"quick": "n in {3,6,12}", "thorough": "n in {3,6,12,24,40}"},
 }
 
@@ -48,6 +48,10 @@ def run_chunk(chunk, tier, seed):
             for tol in TOLS:
                 for osc in ((1.0, 1e-6) if pert == "alt" else (1.0,)):
                     _do(acc, {"kind": kind, "fam": fam, "n": n, "pert": pert, "noise": noise, "rad": rad, "tol": tol, "oscale": osc, "seed": seed})
+                if pert == "alt" and rad == 1.0:
+                    # histories / object reuse: the judged run is not the first thing that happens to the Graph object
+                    for hist in ("two_stage", "reanchor", "shared_landmark_seed"):
+                        _do(acc, {"kind": kind, "fam": fam, "n": n, "pert": pert, "noise": noise, "rad": rad, "tol": tol, "oscale": 1.0, "seed": seed, "hist": hist})
     return acc
 
 
@@ -105,7 +109,7 @@ def judge(case, spec, truth, res, verts, msgs):
     if not all(all(math.isfinite(x) for x in c) for c in state.values()):
         msgs.append("non-finite poses inside the calibrated neighbourhood")
         return float("inf")
-    if not res.final_chi2 <= res.initial_chi2 * (1.0 + 1e-12) + 1e-300:
+    if not res.final_chi2 <= res.initial_chi2 * (1.0 + 1e-12) + 1e-22 * case.get("oscale", 1.0) * (1.0 + len(spec["edges"])):  # floor: chi2 of an exact fit is rounding noise
         msgs.append("final_chi2 %.17g exceeds initial_chi2 %.17g" % (res.final_chi2, res.initial_chi2))
     fixed_ids = {v.id for v in verts if v.fixed}
     lam2, chi2_ref, cond = RS.newton_decrement(spec, state, fixed_ids)
@@ -139,11 +143,41 @@ def judge(case, spec, truth, res, verts, msgs):
 
 def _eval_inner(case):
     spec, truth = make_spec(case)
+    hist = case.get("hist")
+    if hist == "shared_landmark_seed":
+        # the same physical landmark entered twice (two vertices, same observations), both seeded from ONE shared pose object
+        import copy as _c
+
+        lm = [v for v in spec["vertices"] if v["id"] >= 1000][0]
+        twin_id = 2000
+        spec["vertices"].append(dict(lm, id=twin_id))
+        for e in [e for e in spec["edges"] if e["ids"][-1] == lm["id"]]:
+            e2 = _c.deepcopy(e)
+            e2["ids"] = [e["ids"][0], twin_id]
+            spec["edges"].append(e2)
+        truth = truth + [[twin_id, truth[[t[0] for t in truth].index(lm["id"])][1], truth[[t[0] for t in truth].index(lm["id"])][2]]]
     g, verts, edges = GB.build(spec)
+    if hist == "shared_landmark_seed":
+        byid = {v.id: v for v in verts}
+        byid[2000].pose = byid[[v["id"] for v in spec["vertices"] if v["id"] >= 1000][0]].pose
+    elif hist == "two_stage":
+        # an earlier, coarser run on the same Graph object (a later call must honour its own tolerance)
+        GB.optimize(g, tol=1e-3, max_iter=50, fix_first_pose=False)
+    elif hist == "reanchor":
+        # an earlier single iteration with the anchor at another vertex (which is then released again)
+        k = len([v for v in spec["vertices"] if v["id"] < 1000]) // 2
+        verts[0].fixed = False
+        verts[k].fixed = True
+        GB.optimize(g, tol=0.0, max_iter=1, fix_first_pose=False)
+        verts[k].fixed = False
+        verts[0].pose = I.mk_pose(spec["vertices"][0]["kind"], truth[0][2])
+        verts[0].fixed = True
     res = GB.optimize(g, tol=case["tol"], max_iter=50, fix_first_pose=False)
     msgs = []
     ratio = judge(case, spec, truth, res, verts, msgs)
     classes = ["kind:" + case["kind"], "noise_free" if case["noise"] == "zero" else "noisy", "landmarks_with_offset", "loop_closure", "tol:%g" % case["tol"]]
     if case.get("oscale", 1.0) != 1.0:
         classes.append("weak_information")
+    if hist:
+        classes.append("hist:" + hist)
     return msgs, {"ratio": ratio, "classes": classes, "iters": res.num_iterations, "converged": res.converged, "nontrivial": res.initial_chi2 > 1e-6 * case.get("oscale", 1.0)}
